@@ -9,6 +9,6 @@ echo "== demo on the unchanged copy"; PYTHONPATH=$S /venv/bin/python $D/demo.py 
 (cd $S && patch -p1 -s < $D/patch.diff) || { echo "patch does not apply"; rm -rf $S; exit 2; }
 echo "== demo with the change"; PYTHONPATH=$S /venv/bin/python $D/demo.py 2>&1 | tail -1
 for P in "$@"; do
-  echo "== check $P with the change"; (cd /verif && VERIF_REPO=$S PYTHONPATH=$S ./check $P 2>&1 | grep -v Warn | grep "failed\|VIOLATION\|^$P:\|CHECK-ERROR\|PROOF-NOT" | cut -c1-220 | head -10; )
+  echo "== check $P with the change"; (cd /verif && VERIF_REPO=$S PYTHONPATH=$S ./check $P ${ONLY:+--only $ONLY} 2>&1 | grep -v Warn | grep "failed\|VIOLATION\|^$P:\|CHECK-ERROR\|PROOF-NOT" | cut -c1-220 | head -10; )
 done
 rm -rf $S
